@@ -648,9 +648,11 @@ func (ndb *nodeDB) DeleteVersionsFrom(fromVersion int64) error {
 			k, v := kv[0], kv[1]
 			var version int64
 			legacyRootKeyFormat.Scan(k, &version)
-			// delete the legacy nodes
-			if err := ndb.deleteLegacyNodes(version, v); err != nil {
-				return err
+			// delete the legacy nodes (an empty root value is the root of an empty tree: no nodes)
+			if len(v) > 0 {
+				if err := ndb.deleteLegacyNodes(version, v); err != nil {
+					return err
+				}
 			}
 			// it will skip the orphans because orphans will be removed at once in `deleteLegacyVersions`
 			// delete the legacy root
